@@ -119,6 +119,9 @@ type entranceResp struct {
 	V     absView `json:"v"`
 	Block string  `json:"block"`
 	R     uint32  `json:"r"`
+	// the strategy is still inside a call made for the round that was left; it returns this answer right after the
+	// round entrance has been answered (StateMachineMC.tla: LATE STRATEGY ANSWER)
+	Late string `json:"late"`
 }
 
 type delta struct {
@@ -641,6 +644,18 @@ func (r *smRig) start() {
 						Proofs: r.w.SparseProofs("precommit", re.H, resp.R, vsid, map[string][]vc.Entry{r.hub.blockLabel(re.H, resp.Block): {{Pos: 1, Cls: "ok"}, {Pos: 2, Cls: "ok"}, {Pos: 3, Cls: "ok"}}})}}
 				}
 				re.Response <- rer
+				if resp.Late != "" && resp.Late != "none" {
+					// the state machine now waits in its EnterRound request behind the busy strategy: let the strategy return
+					r.strat.mu.Lock()
+					p := r.strat.pending
+					r.strat.mu.Unlock()
+					if p != nil {
+						select {
+						case p.ans <- resp.Late:
+						default:
+						}
+					}
+				}
 				r.srvBusy.Add(-1)
 			case fr := <-r.finReqs:
 				r.srvBusy.Add(1)
